@@ -205,7 +205,7 @@ class State:
 
 class SymEval:
     def __init__(self, ce: ConstEval, func: FuncInfo, bind: dict | None = None, override=None, unroll: int = 0,
-                 modenv: dict | None = None, selfname: str | None = None, uid_base: int = 0):
+                 modenv: dict | None = None, selfname: str | None = None, uid_base: int = 0, frozen_fields=()):
         self.ce = ce
         self.func = func
         self.modenv = modenv if modenv is not None else ce.module_env(func.module)
@@ -214,6 +214,7 @@ class SymEval:
         self.unroll = unroll
         self.effects: list[Effect] = []
         self.uid = uid_base
+        self.frozen_fields = frozenset(frozen_fields)
         self._loops: list = []
         self._trys: list = []
         self._handler = None
@@ -485,7 +486,7 @@ class SymEval:
             st.env["self." + f] = ("loop", lid, "self." + f)
         if calls_self:
             for k in list(st.env):
-                if k.startswith("self."):
+                if k.startswith("self.") and k[5:] not in self.frozen_fields:
                     st.env[k] = ("loop", lid, k)
         info["pre"] = pre.env
         self._loops.append(lid)
@@ -511,7 +512,7 @@ class SymEval:
             out.env["self." + f] = ("loopout", lid, "self." + f)
         if calls_self:
             for k in list(out.env):
-                if k.startswith("self."):
+                if k.startswith("self.") and k[5:] not in self.frozen_fields:
                     out.env[k] = ("loopout", lid, k)
         if isinstance(s, ast.While) and self.truth(info["test"]) is None and not _has_break(s.body):
             out.assume(info["test"], False)
@@ -577,6 +578,8 @@ class SymEval:
         return const(v)
 
     def truth(self, c):
+        if c[0] == "nonnull":
+            return True if len(c) > 2 and c[2] == "truthy" else None
         if is_const(c):
             try:
                 return bool(c[1])
@@ -689,7 +692,10 @@ class SymEval:
                 return self.expr(e.body, st)
             if t is False:
                 return self.expr(e.orelse, st)
-            return self.ite(c, self.expr(e.body, st), self.expr(e.orelse, st))
+            s1, s2 = st.copy(), st.copy()
+            s1.assume(c, True)
+            s2.assume(c, False)
+            return self.ite(c, self.expr(e.body, s1), self.expr(e.orelse, s2))
         if isinstance(e, ast.Tuple):
             items = tuple(self.expr(x, st) for x in e.elts)
             if all(is_const(i) for i in items):
@@ -798,8 +804,8 @@ class SymEval:
                 return const(r if sym == "in" else not r)
             except Exception:
                 pass
-        if sym in ("is", "is not") and is_const(b) and b[1] is None and a[0] in ("tuple", "list", "dict", "gval", "call") and a[0] != "call":
-            return const(sym == "is not")
+        if sym in ("is", "is not", "==", "!=") and is_const(b) and b[1] is None and a[0] in ("tuple", "list", "dict", "gval", "nonnull", "self", "func", "class"):
+            return const(sym in ("is not", "!="))
         return ("cmp", sym, a, b)
 
     def call(self, e: ast.Call, st: State):
